@@ -1,5 +1,7 @@
 package main
 
+import "fmt"
+
 type sqlRows struct {
 	cols []string
 	rows [][]Value
@@ -10,14 +12,20 @@ type sqlRows struct {
 
 func replayTZ(rv *ReplayVector) string {
 	for _, in := range rv.Inputs {
-		if in.Label == "TZ-offset-quarter-hours" {
-			return tzNameForQuarterHours(int64(in.Value))
+		if in.Label == "TZ-offset-hours" {
+			h := int64(in.Value)
+			if h == 0 {
+				return "UTC"
+			}
+			if h > 0 {
+				return fmt.Sprintf("Etc/GMT-%d", h) // POSIX sign convention
+			}
+			return fmt.Sprintf("Etc/GMT+%d", -h)
 		}
 	}
 	return ""
 }
 
-func tzNameForQuarterHours(q int64) string { return "" }
 
 func init() {
 	reg(vrtPath+".Thorough", func(m *Machine, fr *frame, args []Value) Value { return BoolT(m.opts["thorough"] == 1) })
